@@ -200,6 +200,15 @@ def post(obs, payload):
         fails += compare_csv(obs['result'], obs['csv'])
     elif obs.get('csv_exc'):
         fails.append(('csv/raises', f'as_csv() raised {obs["csv_exc"]}'))
+    if obs.get('csv') is not None:
+        if obs.get('csv_again_exc'):
+            fails.append(('csv/second_export_raises', f'a second as_csv() on the same result raised {obs["csv_again_exc"]}'))
+        elif obs.get('csv_again') != obs['csv']:
+            a, b = obs['csv'].splitlines(), (obs.get('csv_again') or '').splitlines()
+            dl = next(((x, y) for x, y in zip(a, b) if x != y), (f'{len(a)} lines', f'{len(b)} lines'))
+            fails.append(('csv/second_export_differs', f'a second as_csv() on the same result gives different text: {dl[0]!r} vs {dl[1]!r}'))
+        if obs.get('result_after_csv_same') is False:
+            fails.append(('csv/export_mutates_result', 'the result object no longer holds what it held before as_csv() was called'))
     if obs.get('json') is not None:
         jf, n = compare_json(obs['json'], obs['hook']['out'], obs['hook']['units'])
         fails += jf
@@ -222,11 +231,20 @@ def stored_task(payload):
                 r = GeophiresXResult(p)
                 with open(p) as f:
                     txt = f.read()
+                import copy
+                before = copy.deepcopy(r.result)
                 try:
                     c = r.as_csv()
                 except BaseException as e:  # noqa
                     c = None
-                out.append((p, r.result, txt, c))
+                if c is not None:       # an export is a read
+                    try:
+                        again = r.as_csv()
+                    except BaseException as e:  # noqa
+                        again = f'<raised {type(e).__name__}: {e}>'
+                    if again != c or r.result != before:
+                        c = {'first': c, 'again_differs': again != c, 'result_mutated': r.result != before}
+                out.append((p, before, txt, c))
             except BaseException as e:  # noqa
                 out.append((p, None, f'{type(e).__name__}: {e}', None))
         return out
@@ -244,6 +262,12 @@ def stored_task(payload):
             check.fail(res, f'client/cannot_parse/{name}', f'client cannot parse {name}: {txt}')
             continue
         res['accepted'] += 1
+        if isinstance(c, dict):
+            if c['again_differs']:
+                check.fail(res, 'csv/second_export_differs', f'{name}: a second as_csv() on the same result gives different text (or raises)')
+            if c['result_mutated']:
+                check.fail(res, 'csv/export_mutates_result', f'{name}: the result object no longer holds what it held before as_csv() was called')
+            c = c['first']
         fails, counters, shape = compare_result(result, txt)
         for k, msg in fails:
             check.fail(res, k, f'[{name}] {msg}')
